@@ -112,6 +112,13 @@ Section C12.
     mixed_commute f x -> (i < length x)%nat -> (j < length x)%nat ->
     nth j (nth i (Dfwd (Drev f) x) []) 0 = nth i (nth j (Dfwd (Drev f) x) []) 0.
   Proof. exact (hessian_symmetric_partial Drev Dfwd Drev_contract Dfwd_contract). Qed.
+
+  Theorem C12_hessian_symmetric_schwarz_partial : forall (f : list R -> R) x i j,
+    (forall y, length y = length x -> smooth1 f y) ->
+    (forall k, smooth1 (fun y => nth k (Drev f y) 0) x) ->
+    (i < length x)%nat -> (j < length x)%nat -> (i <> j -> schwarz_regular f x i j) ->
+    nth j (nth i (Dfwd (Drev f) x) []) 0 = nth i (nth j (Dfwd (Drev f) x) []) 0.
+  Proof. exact (hessian_symmetric_schwarz_partial Drev Dfwd Drev_contract Dfwd_contract). Qed.
 End C12.
 Print Assumptions C12_call_values.
 Print Assumptions C12_gradient_of_call.
@@ -124,6 +131,7 @@ Print Assumptions C12_gradient_true_derivative.
 Print Assumptions C12_time_derivative_true.
 Print Assumptions C12_hessian_entries.
 Print Assumptions C12_hessian_symmetric_partial.
+Print Assumptions C12_hessian_symmetric_schwarz_partial.
 
 (* ---- shape rules (x of shape (n, d); None = scalar-valued predictor, Some m = m output columns) *)
 Theorem C12_shape_rules : forall n d,
@@ -183,6 +191,16 @@ Theorem C12_gradient_values_time : forall logn Drev Dfwd slogdet,
              /\ r = readout_grad (kgrad_true e) w B (s ++ [t]) (length s)).
 Proof. exact gradient_values_time. Qed.
 Print Assumptions C12_gradient_values_time.
+
+(* mixed second partials commute under the premises of Schwarz' theorem (pure analysis, no contract) *)
+Theorem C12_mixed_partials_commute : forall (f : list R -> R) x i j, i <> j -> schwarz_regular f x i j ->
+  Derive (fun v => partial_at f (upd x j v) i) (nth j x 0) = Derive (fun u => partial_at f (upd x i u) j) (nth i x 0).
+Proof. exact mixed_commute_schwarz. Qed.
+Print Assumptions C12_mixed_partials_commute.
+
+Example C12_schwarz_regular_satisfiable :
+  0%nat <> 1%nat /\ schwarz_regular (fun l : list R => nth 0 l 0 * nth 1 l 0) [1; 2] 0 1.
+Proof. exact schwarz_regular_example. Qed.
 
 (* ---- non-vacuity: the contract has a model; the kernel hypotheses hold on a depth-3 expression *)
 Example C12_contract_satisfiable :
